@@ -565,6 +565,13 @@ def _check_timeout(ctx, mod, cls, Elem):
     wit = g.must_precede(ins, reads)
     ctx.check(bool(ins) and bool(reads) and wit is None, "timeout/inserts-new-calls-first", q,
               "timeout() looks at the heap before inserting newly scheduled calls: the reactor may sleep past a new call", witness=g.describe(wit))
+    al = _heap_aliases(f)
+    for node in ast.walk(f):
+        if isinstance(node, ast.Attribute) and isinstance(node.value, ast.Subscript) and _is_heap(node.value.value, al) \
+                and isinstance(node.value.slice, ast.Constant) and node.value.slice.value == 0:
+            ctx.check(node.attr not in ("getTime", "delayed_time"), "timeout/uses-heap-key", ctx.construct(q, node),
+                      f"timeout() reads `{node.attr}` of the heap head: the heap is ordered by `time` only, so the head's scheduled time "
+                      "(time + delayed_time) says nothing about the other pending calls - one of them may be due earlier and the reactor oversleeps")
     Reactor = model_class(cls, "ReactorModel")
     bad = None
     n = 0
@@ -582,6 +589,32 @@ def _check_timeout(ctx, mod, cls, Elem):
                     break
             if bad:
                 break
+        if not bad:
+            # the heap is ordered by the key `time`; a postponement lives in delayed_time until the call is popped.  So the head may be
+            # postponed past other pending calls: the bound is the earliest *scheduled* time of any pending call, which the head's key
+            # (never its scheduled time) lower-bounds
+            shapes = [
+                [(1, 2), (2, 0), (4, 0)],            # head postponed past the second call
+                [(1, 5), (3, 0), (2, 0)],            # ... past both children
+                [(1, 0.5), (2, 0), (3, 0)],          # postponed, still the earliest
+                [(1, 3), (2, 4), (6, 0)],            # head and a child postponed
+                [(0, 10), (0, 0), (7, 0)],           # equal keys, only one postponed
+            ]
+            for now in (0.0, 0.5):
+                for shape in shapes:
+                    heap = [Elem(time=now + t, delayed_time=float(d), cancelled=0) for t, d in shape]
+                    r = Reactor(**{HEAP: heap, NEW: [], CANC: 0, "seconds": (lambda now=now: now), "_insertNewDelayedCalls": (lambda: None)})
+                    MiniEval.budget = 0
+                    got = MiniEval.call(f, (r,), {})
+                    n += 1
+                    bound = max(0, min(t + d for t, d in shape))
+                    if got is None or not (0 <= got <= bound):
+                        bad = (f"pending calls (key time, delayed_time) = {shape} relative to now: the earliest is due in {bound}s but timeout() "
+                               f"returns {got!r} - it is computed from the head's scheduled time, although only its heap key `time` "
+                               "lower-bounds the other calls")
+                        break
+                if bad:
+                    break
         if not bad:
             r = Reactor(**{HEAP: [], NEW: [], CANC: 0, "seconds": (lambda: 0.0), "_insertNewDelayedCalls": (lambda: None)})
             MiniEval.budget = 0
@@ -833,4 +866,18 @@ SILENT += [
     Silent("iterate-calls-drivers", BASE, "        self._insertNewDelayedCalls()\n\n        if not self._pendingTimedCalls:\n            return None\n",
            "        self._stage()\n\n        if not self._pendingTimedCalls:\n            return None\n",
            more=[(BASE, "    def _cancelCallLater(self, delayedCall: DelayedCall) -> None:", "    def _stage(self):\n        self._insertNewDelayedCalls()\n\n    def _cancelCallLater(self, delayedCall: DelayedCall) -> None:")]),
+]
+
+MUTANTS += [
+    # "do not wake up early for a postponed call": the sleep time is taken from the head's scheduled time instead of its heap key
+    Mutant("timeout-from-scheduled-time-of-head", BASE, "delay = self._pendingTimedCalls[0].time - self.seconds()",
+           "delay = self._pendingTimedCalls[0].getTime() - self.seconds()", expect_rule="timeout/bounded-by-earliest-call"),
+    Mutant("timeout-adds-delay-of-head", BASE, "delay = self._pendingTimedCalls[0].time - self.seconds()",
+           "head = self._pendingTimedCalls[0]\n        delay = head.time + head.delayed_time - self.seconds()", expect_rule="timeout/bounded-by-earliest-call"),
+]
+SILENT += [
+    Silent("timeout-exact-minimum", BASE, "delay = self._pendingTimedCalls[0].time - self.seconds()",
+           "delay = min(c.getTime() for c in self._pendingTimedCalls) - self.seconds()"),
+    Silent("timeout-head-in-local", BASE, "delay = self._pendingTimedCalls[0].time - self.seconds()",
+           "head = self._pendingTimedCalls[0]\n        delay = head.time - self.seconds()"),
 ]
